@@ -60,8 +60,9 @@ _MUT_INDEX = gen.uniform_int(0, 10**9)
 
 
 @st.composite
-def base_case(draw, types=TYPES):
-    typ = draw(_TYPE_CHOICE) if types is TYPES else draw(st.sampled_from(types))
+def base_case(draw, types=TYPES, typ=None):
+    if typ is None:
+        typ = draw(_TYPE_CHOICE) if types is TYPES else draw(st.sampled_from(types))
     n = draw(st.integers(1, 5)) if typ in MULTI else 1
     m = draw(st.integers(1, n))
     secrets = draw(st.lists(gen.uniform_int(1, ec.N - 1), min_size=7, max_size=7, unique=True))
@@ -138,7 +139,15 @@ class Spend:
         else:
             self.tap_script = MultiSigTapScript([p.point for p in self.privs], self.m)
         self.leaf = self.tap_script.tap_leaf()
-        if self.case["extra_leaf"]:
+        if self.case.get("mut") == "sibling_leaf_same_keys":
+            # a second leaf of the SAME tree that accepts the same witness stack (same keys and threshold,
+            # plus a locktime the transaction satisfies): signatures made for one leaf must not spend the other
+            from buidl.timelock import Locktime as _Lt
+
+            self.sibling_script = MultiSigTapScript([p.point for p in self.privs], self.m, locktime=_Lt(5))
+            self.sibling = self.sibling_script.tap_leaf()
+            self.tree = TapBranch(self.leaf, self.sibling)
+        elif self.case["extra_leaf"]:
             other = P2PKTapScript(self.foreign.point).tap_leaf()
             self.tree = TapBranch(self.leaf, other)
         else:
@@ -152,7 +161,10 @@ class Spend:
         ins = []
         for i in range(c["n_in"]):
             prev = bytes([i]) + c["prev"][1:]
-            ti = TxIn(prev, i, Script(), c["seq"][i])
+            seq = c["seq"][i]
+            if c.get("mut") == "sibling_leaf_same_keys" and i == self.idx:
+                seq = 0  # not final, so that the sibling leaf's CHECKLOCKTIMEVERIFY is satisfied
+            ti = TxIn(prev, i, Script(), seq)
             if i == self.idx:
                 ti._value = c["spent_amount"]
                 ti._script_pubkey = self.spk
@@ -162,7 +174,8 @@ class Spend:
             ins.append(ti)
         outs = [TxOut(c["amounts"][j], Script([0x76, 0xA9, bytes([j + 9]) * 20, 0x88, 0xAC]))
                 for j in range(c["n_out"])]
-        return Tx(c["version"], ins, outs, c["locktime"], segwit=self.typ in SEGWIT)
+        locktime = 100 if c.get("mut") == "sibling_leaf_same_keys" else c["locktime"]
+        return Tx(c["version"], ins, outs, locktime, segwit=self.typ in SEGWIT)
 
     # -- signing through the library
     def signer_privs(self):
@@ -279,16 +292,23 @@ for _t in TYPES:
     if _t in TAPSCRIPT:
         ms += ["cb_flip_parity", "cb_other_internal", "cb_alter_path", "leaf_swap_foreign_signed",
                "leaf_version"]
+    if _t == "p2tr_script_multisig":
+        ms += ["sibling_leaf_same_keys", "sibling_leaf_same_keys"]
     if _t in ("p2tr_key", "p2tr_key_root"):
         ms += ["untweaked_key_sig", "wrong_root_sig"]
     MUTS[_t] = ms
 ALL_MUTS = sorted({m for v in MUTS.values() for m in v})
+_MUT_CHOICE = gen.choice(ALL_MUTS)
 
 
 @st.composite
 def mut_case(draw):
-    c = draw(base_case())
-    c["mut"] = MUTS[c["type"]][draw(_MUT_INDEX) % len(MUTS[c["type"]])]
+    # the mutation is chosen first (uniformly over the catalogue), then a type that supports it, so that
+    # mutations which only a few output types admit are not starved
+    mut = draw(_MUT_CHOICE)
+    types_for = [t for t in TYPES if mut in MUTS[t]]
+    c = draw(base_case(typ=types_for[draw(_MUT_INDEX) % len(types_for)]))
+    c["mut"] = mut
     c["delta"] = draw(st.integers(1, 2**31))
     c["which"] = draw(st.integers(0, 7))
     return c
@@ -470,6 +490,11 @@ def check_mutated(case, ctx):
             else:
                 cb += bytes(32)
         tin.witness.items[-1] = bytes(cb)
+    elif mut == "sibling_leaf_same_keys":
+        # keep the signatures, present the sibling leaf (in the tree, honest control block) IN PLACE
+        cb2 = sp.tree.control_block(sp.internal, sp.sibling)
+        tin.witness.items[-2] = sp.sibling_script.raw_serialize()
+        tin.witness.items[-1] = cb2.serialize()
     elif mut == "leaf_swap_foreign_signed":
         ts = P2PKTapScript(sp.foreign.point)
         tin.witness = Witness([ts.raw_serialize(), sp.cb.serialize()])
